@@ -82,8 +82,8 @@ def load_known():
 
 
 def write_replay(prop_id, payload):
-    d = VERIF / 'replays'
-    d.mkdir(exist_ok=True)
+    d = pathlib.Path(os.environ.get('VERIF_REPLAY_DIR', VERIF / 'replays'))
+    d.mkdir(parents=True, exist_ok=True)
     blob = json.dumps(payload, sort_keys=True, default=str)
     h = hashlib.sha1(blob.encode()).hexdigest()[:12]
     p = d / f'{prop_id}-{h}.json'
@@ -112,7 +112,9 @@ def run_check(prop, tier, seed):
     target = prop.PROPERTY_FILE[:-2] + '.vo'
     cone = []
     if not any(b[0] == 'translator' for b in broken):
-        ok, out, secs = coqrun.make([target])
+        # the generated case files import model files that need not be in the property's cone
+        models = [f[:-2] + '.vo' for f in coqrun.project_files() if f.startswith(('Model/', 'Generated/'))]
+        ok, out, secs = coqrun.make([target] + models)
         ev['build_s'] = round(secs, 1)
         cone = coqrun.dependency_cone(prop.PROPERTY_FILE)
         obligations = coqrun.count_statements(cone)
@@ -120,10 +122,13 @@ def run_check(prop, tier, seed):
             discharged = len(obligations)
         else:
             broken.append(('proof', coqrun.first_error(out).split(':')[0], coqrun.first_error(out)))
-            # statements in files that did compile still count as discharged
-            built = [f for f in cone if (coqrun.COQ / (f + 'o')).exists()
-                     and (coqrun.COQ / (f + 'o')).stat().st_mtime >= (coqrun.COQ / f).stat().st_mtime]
-            discharged = len(coqrun.count_statements(built))
+            # statements in files that do not depend on the failing file still count as discharged
+            import re as _re
+            m = _re.search(r'File "\./([^"]+\.v)"', out) or _re.search(r'File "([^"]+\.v)"', out)
+            failed = m.group(1) if m else prop.PROPERTY_FILE
+            failed = failed.split('/coq/')[-1]
+            bad = coqrun.dependents_of(failed, cone)
+            discharged = len(coqrun.count_statements([f for f in cone if f not in bad]))
         hits = coqrun.anti_cheat(cone)
         if hits:
             broken.append(('anti-cheat', 'forbidden declaration', '; '.join(hits[:5])))
@@ -141,6 +146,19 @@ def run_check(prop, tier, seed):
                         broken.append(('assumptions', t, 'theorem missing from the property file'))
             except coqrun.CoqError as e:
                 broken.append(('assumptions', 'Print Assumptions', str(e)))
+
+    # 2b. thorough tier: independent re-check with coqchk (kernel re-typecheck of every .vo in the cone)
+    if not ctx.quick and not broken:
+        try:
+            rc, summary, tail = coqrun.coqchk('Cirbo.' + prop.PROPERTY_FILE[:-2].replace('/', '.'))
+            ev['coqchk'] = {'exit': rc, 'summary': summary}
+            axioms = [a for a in summary.get('Axioms', []) if a and a != '<none>']
+            if rc != 0:
+                broken.append(('coqchk', 'coqchk failed', tail))
+            elif axioms and not set(axioms) <= set(getattr(prop, 'ALLOWED_AXIOMS', [])):
+                broken.append(('coqchk', 'axioms', str(axioms)))
+        except Exception as e:  # noqa: BLE001
+            ev['coqchk'] = {'error': repr(e)}
 
     # 3. correspondence between the model and the implementation
     corr = CorrResult()
@@ -259,8 +277,9 @@ def run_check(prop, tier, seed):
         'assumptions': list(getattr(prop, 'ASSUMPTIONS', [])),
         'wall_s': round(wall, 2), 'violations': len(violations) + (1 if (broken and not violations) else 0),
     }
-    (VERIF / 'evidence').mkdir(exist_ok=True)
-    (VERIF / 'evidence' / f'{pid}.json').write_text(json.dumps(evidence, indent=1, default=str))
+    evdir = pathlib.Path(os.environ.get('VERIF_EVIDENCE_DIR', VERIF / 'evidence'))
+    evdir.mkdir(parents=True, exist_ok=True)
+    (evdir / f'{pid}.json').write_text(json.dumps(evidence, indent=1, default=str))
     print(f'{pid} {tier} seed={seed}: obligations={len(obligations)} discharged={discharged} '
           f'corr_cases={corr.evaluations} distinct={len(corr.keys)} oracle_runs={oracle_runs} '
           f'broken={len(broken)} violations={len(violations)} wall={wall:.1f}s')
@@ -276,6 +295,12 @@ def run_replay(prop, path):
         return 1
     msg = prop.oracle(payload['case'])
     if msg:
+        key = prop.classify(payload['case'], msg)
+        for k in load_known()['known']:
+            if k['property'] == prop.ID and k['key'] == key:
+                print(f"KNOWN-FINDING: property={prop.ID} {k['description']}")
+                print('  ' + str(msg)[:500])
+                return 0
         print(f'VIOLATION property={prop.ID} replay={path}')
         print('  ' + str(msg)[:500])
         return 1
